@@ -13,7 +13,7 @@ from vt.props.c12 import reference_generator
 PROPERTY_ID = 'C13'
 
 RULE = ('Model sizes are enumerated over everything that fits (co_oxidation order 2..6, signaling_cascade d 2..4, toll_station '
-        '2..5 lanes x 1..3 cars, two_step m 1..3, qft/iqft n 1..7, qfa, qfan 1..5, shor a in units mod 15, exciton_chain 2..7 '
+        '2..5 lanes x 1..3 cars, two_step m 1..3, qft/iqft n 1..7, qfa, qfan 1..5, and in TT form only: co_oxidation up to order 14, toll_station up to 9 lanes, signaling_cascade up to d 7, two_step m 4..5, qfan up to 9 adders, exciton_chain / ising up to 14 sites; shor a in units mod 15, exciton_chain 2..7 '
         'sites, ising 2..8 sites, fpu d 3..6, kuramoto d 2..6, fractals dimension 1..3 x level 1..8 as far as 3^(level*dim) <= 6e5 / 6e6 entries) and combined with '
         'Hypothesis-drawn rate constants, couplings, frequencies, evaluation points. Oracles are the defining formulas: column '
         'sums / sign pattern (dense, or in TT form: norm of 1^T A by transfer matrices plus sampled off-diagonal entries through '
@@ -408,6 +408,100 @@ def body_fractal(case):
     return lab
 
 
+# ---------------------------------------------------------------------------------------------------------
+# sizes that cannot be matricised: TT-form identities only
+# ---------------------------------------------------------------------------------------------------------
+
+@st.composite
+def large_case(draw):
+    model = draw(st.sampled_from(['co_oxidation', 'toll_station', 'signaling_cascade', 'two_step', 'qfan', 'exciton_chain', 'ising']))
+    c = {'model': model, 'seed': draw(gen.SEED)}
+    if model == 'co_oxidation':
+        c['order'] = draw(st.integers(7, 14))
+        c['k_exp'] = draw(st.floats(-2, 6))
+        c['cyclic'] = draw(st.booleans())
+    elif model == 'toll_station':
+        c['lanes'] = draw(st.integers(6, 9))
+        c['cars'] = draw(st.integers(2, 4))
+    elif model == 'signaling_cascade':
+        c['d'] = draw(st.integers(5, 7))
+    elif model == 'two_step':
+        c['k'] = [draw(st.floats(0.01, 10.0)) for _ in range(3)]
+        c['m'] = draw(st.integers(4, 5))
+    elif model == 'qfan':
+        c['k'] = draw(st.integers(6, 9))
+    elif model == 'exciton_chain':
+        c['n'] = draw(st.integers(8, 14))
+        c['alpha'] = draw(st.floats(-2, 2))
+        c['beta'] = draw(st.floats(-2, 2))
+    else:
+        c['d'] = draw(st.integers(9, 14))
+        c['J'] = draw(st.floats(-2, 2))
+        c['h'] = draw(st.floats(-2, 2))
+    return c
+
+
+def body_large(case):
+    rng = np.random.default_rng(case['seed'])
+    model = case['model']
+    lab = {model, 'tt_form', 'other_size'}
+    if model == 'co_oxidation':
+        op = mdl.co_oxidation(case['order'], float(10.0 ** case['k_exp']), cyclic=case['cyclic'])
+        require_consistent(op, 'consistent')
+        require(op.row_dims == [3] * case['order'] and op.col_dims == [3] * case['order'], 'dims', 'dims of co_oxidation')
+        is_generator_tt(op.cores, rng, 'co_oxidation', samples=200)
+    elif model == 'toll_station':
+        op = mdl.toll_station(case['lanes'], case['cars'])
+        require_consistent(op, 'consistent')
+        is_generator_tt(op.cores, rng, 'toll_station', samples=200)
+    elif model == 'signaling_cascade':
+        op = mdl.signaling_cascade(case['d'])
+        require_consistent(op, 'consistent')
+        is_generator_tt(op.cores, rng, 'signaling_cascade', samples=200)
+    elif model == 'two_step':
+        op = mdl.two_step_destruction(case['k'][0], case['k'][1], case['k'][2], case['m'])
+        require_consistent(op, 'consistent')
+        is_generator_tt(op.cores, rng, 'two_step', samples=200)
+    elif model == 'qfan':
+        g = mdl.qfan(case['k'])
+        require_consistent(g, 'consistent')
+        unitary_tt(g.cores, 'qfan_unitary')
+    elif model == 'exciton_chain':
+        n, a, b = case['n'], case['alpha'], case['beta']
+        op = mdl.exciton_chain(n, a, b)
+        require_consistent(op, 'consistent')
+        # Hermitian: ||H - H^H|| = 0 in TT form; and random matrix elements against the defining formula
+        diff = dense.tt_add(op.cores, dense.tt_scale(dense.tt_adjoint(op.cores), -1.0))
+        nH = dense.tt_norm(op.cores)
+        require(dense.tt_norm(diff) <= 1e-6 * max(nH, 1e-300), 'exciton_hermitian', '||H - H^H|| = %.3e' % dense.tt_norm(diff))
+        for _ in range(60):
+            r = [int(rng.integers(2)) for _ in range(n)]
+            kind = rng.integers(3)
+            c_ = list(r)
+            if kind == 0:
+                want = a * sum(r)                                   # diagonal: alpha * number of excitations
+            else:
+                i = int(rng.integers(n))
+                j = (i + 1) % n
+                if r[i] == r[j]:
+                    continue
+                c_[i], c_[j] = r[j], r[i]                           # hopping between neighbours (periodic)
+                want = b * (2.0 if n == 2 else 1.0)
+            e = dense.tt_entry(op.cores, r, c_)
+            require(abs(e - want) <= 1e-10 * (abs(a) + abs(b) + 1e-3) * n, 'exciton_value', 'entry %s <- %s is %s, expected %s' % (r, c_, e, want))
+    else:
+        d, J, h = case['d'], case['J'], case['h']
+        t = mdl.ising(d, J, h)
+        require_consistent(t, 'consistent')
+        for _ in range(100):
+            idx = [int(rng.integers(2)) for _ in range(d)]
+            sgn = [1 - 2 * i for i in idx]
+            want = -J * sum(sgn[i] * sgn[i + 1] for i in range(d - 1)) - h * sum(sgn)
+            e = dense.tt_entry(t.cores, idx, [0] * d)
+            require(abs(e - want) <= 1e-10 * (abs(J) + abs(h) + 1e-3) * d, 'ising_value', 'energy of %s is %s, expected %s' % (idx, e, want))
+    return lab
+
+
 def nt(labels):
     return bool({'other_size', 'non_default_option', 'random_rates'} & set(labels))
 
@@ -419,6 +513,8 @@ SUBCHECKS = [
         classes=['qft', 'iqft', 'qfa', 'qfan', 'shor', 'tt_form']),
     Sub('physics', physics_case(), body_physics, nt, quick=200, thorough=2000,
         classes=['exciton_chain', 'ising', 'fpu', 'kuramoto']),
+    Sub('large_tt_form', large_case(), body_large, nt, quick=25, thorough=150, shards_quick=4, budget_quick=150,
+        classes=['co_oxidation', 'toll_station', 'signaling_cascade', 'two_step', 'qfan', 'exciton_chain', 'ising']),
     Sub('fractals', fractal_case(), body_fractal, nt, quick=60, thorough=200,
         classes=['cantor_dust', 'multisponge', 'vicsek_fractal', 'rgb_fractal']),
 ]
